@@ -36,6 +36,7 @@ RULE = ("complete cartesian grids of input shapes (cipher, key length, mode, IV/
         "message-length class) actually executed, measured with acc.seen")
 BUDGET = {"quick": 170, "thorough": 1700}
 
+HUGE = 1 << 20         # lengths from here on are counted as "huge_cases" (thorough tier only; vacuity guard)
 BS = {"AES": 16, "DES": 8, "DES3": 8, "Blowfish": 8, "CAST": 8, "ARC2": 8}
 KEYLENS = {"AES": (16, 24, 32), "DES": (8,), "DES3": (16, 24), "Blowfish": tuple(range(4, 57)),
            "CAST": tuple(range(5, 17)), "ARC2": tuple(range(5, 129))}
@@ -266,6 +267,12 @@ def lens_all(bs):
     return list(range(0, 8 * bs + 2)) + [16 * bs - 1, 16 * bs, 16 * bs + 1, 24 * bs, 24 * bs + 1]
 
 
+def lens_deep(bs):
+    """thorough tier: every length up to 16 blocks + 1 (two refills of the 8-block CTR keystream / two 8-block
+    AES-NI batches with every remainder), then around 24 and 32 blocks; a superset of lens_all"""
+    return list(range(0, 16 * bs + 2)) + [24 * bs - 1, 24 * bs, 24 * bs + 1, 32 * bs - 1, 32 * bs, 32 * bs + 1]
+
+
 def lens_few(bs):
     return [0, 1, bs - 1, bs, bs + 1, 2 * bs, 8 * bs - 1, 8 * bs, 8 * bs + 1, 16 * bs + 1]
 
@@ -283,6 +290,18 @@ def ivgrid(cl):
 def ivgrid_small(cl):
     top = 1 << (8 * cl)
     return sorted({0, top - 9, 0xF8 if cl > 1 else 0xF7})
+
+
+def ivgrid_mid(cl):
+    """thorough tier, Counter.new layouts: start, carry out of the low byte / the low two bytes at the 8-block
+    look-ahead, carry into and out of the top byte, wrap through zero after 1, 9 and 17 blocks"""
+    top = 1 << (8 * cl)
+    s = {0, 0xF8 if cl > 1 else 0xF7, top - 1, top - 9, top - 17}
+    if cl > 1:
+        s |= {(1 << (8 * (cl - 1))) - 1, (1 << (8 * (cl - 1))) - 9}
+    if cl > 2:
+        s.add(0xFFF8)
+    return sorted(v for v in s if 0 <= v < top)
 
 
 def classic_setup(cfg):
@@ -366,6 +385,8 @@ def check_classic(cfg, acc, lengths=None):
         acc.seen("classes", ("classic", c, cfg["klen"], eff, mode, sig, lcls(L, bs)))
         pt, exp = Mfull[:L], ref_full[:L]
         case = dict(cfg, L=L)
+        if L >= HUGE:
+            acc.count("huge_cases")
         try:
             e = lib_new(c, key, mode, eff, **kwe)
             got = e.encrypt(pt)
@@ -426,11 +447,17 @@ def classic_cfgs(c, klen, eff, vc, seed, group):
                 yield dict(base, mode="CTR", ctr={"kind": "nonce", "nl": nl, "iv": iv, "ivdefault": True})
             yield dict(base, mode="CTR", ctr={"kind": "nonce", "nl": nl, "iv": (1 << (8 * (bs - nl))) - 9,
                                               "ivbytes": True})
-    elif group in ("ctrc0", "ctrc1"):
-        le = group == "ctrc1"
+    elif group[:5] in ("ctrc0", "ctrc1", "ctrd0", "ctrd1"):
+        # ctrc*: 3 initial values per layout (quick); ctrd*: the 8-value grid (thorough); "ctrd0/i/n" = the counter
+        # lengths cl with cl % n == i (shard split, same enumeration)
+        le = group[4] == "1"
+        grid = ivgrid_mid if group[3] == "d" else ivgrid_small
+        sub = group.split("/")
         for cl in range(1, bs + 1):
+            if len(sub) == 3 and cl % int(sub[2]) != int(sub[1]):
+                continue
             for p in range(0, bs - cl + 1):
-                for iv in ivgrid_small(cl):
+                for iv in grid(cl):
                     yield dict(base, mode="CTR", ctr={"kind": "counter", "p": p, "cl": cl, "s": bs - cl - p,
                                                       "le": le, "iv": iv})
 
@@ -503,8 +530,11 @@ def aead_sig(cfg):
     acls = tuple(lcls(x, bs) for x in a) if isinstance(a, list) else lcls(a, bs)
     if isinstance(a, int) and a >= 0xFF00:
         acls = "hdr6"
-    return (cfg.get("nl"), cfg.get("tl"), acls, cfg.get("ccm"), cfg.get("last") is not None and cfg["last"] & 0x3F,
-            cfg.get("nonce") is not None)
+    sig = (cfg.get("nl"), cfg.get("tl"), acls, cfg.get("ccm"), cfg.get("last") is not None and cfg["last"] & 0x3F,
+           cfg.get("nonce") is not None)
+    if cfg.get("eff") is not None:
+        sig += (cfg["eff"],)
+    return sig
 
 
 def check_aead(cfg, acc):
@@ -552,6 +582,8 @@ def check_aead(cfg, acc):
     if back != pt:
         _viol(acc, cfg, "decrypt", "%s: decrypt_and_verify(specification ciphertext) = %s" % (desc, short(back)))
     acc.count("bytes_compared", 2 * L + len(exp_tag))
+    if L >= HUGE or (isinstance(cfg["aad"], int) and cfg["aad"] >= HUGE):
+        acc.count("huge_cases")
     if L in (17, 33) and cfg.get("tl") in (None, 16, 8) and cfg["aad"]:
         acc.sample({"part": "aead", "cipher": c, "mode": mode, "key": key, "nonce": nonce, "aad": aad if isinstance(aad, bytes) else list(aad),
                     "message": pt, "ciphertext": ct, "tag": tag, "equals_reference": ct == exp_ct and tag == exp_tag})
@@ -561,23 +593,47 @@ AAD_G = (0, 1, 15, 16, 17, 33)
 MSG_G = (0, 1, 15, 16, 17, 32, 33)
 GCM_NL = (1, 8, 11, 12, 13, 15, 16, 17, 31, 32, 33)
 SIV_AAD = ([], [1], [16], [17], [0], [15, 33], [1, 16, 17], [16, 0, 1])
+SIV_AD1 = (0, 1, 15, 16, 17, 33)          # thorough: component lengths of the 0-, 1- and 2-component AD vectors
+SIV_AD3 = (0, 1, 16, 17)                  # ... of the 3-component vectors
+SIV_AD4 = (0, 17)                         # ... of the 4-component vectors
+CCM_VARIANTS = ("auto", "declared", "msg_len", "assoc_len")
+CHAPOLY_AAD_DEEP = (0, 1, 15, 16, 17, 33, 63, 64, 65)
+CHAPOLY_MSG = (0, 1, 15, 16, 17, 32, 33, 63, 64, 65, 127, 128, 129)
+CHAPOLY_MSG_DEEP = CHAPOLY_MSG + (255, 256, 257, 511, 512, 513)
 
 
-def aead_grid(mode, c, klen, nl, vc, seed, quick):
+def siv_ad_vectors(quick):
+    """associated-data vectors (lists of component lengths) of the SIV grid; thorough: EVERY vector of 0..2 components
+    over SIV_AD1, of 3 components over SIV_AD3 and of 4 components over SIV_AD4 (a superset of the quick list)"""
+    if quick:
+        return [list(a) for a in SIV_AAD]
+    out = [[]] + [[a] for a in SIV_AD1] + [[a, b] for a in SIV_AD1 for b in SIV_AD1]
+    out += [[a, b, d] for a in SIV_AD3 for b in SIV_AD3 for d in SIV_AD3]
+    out += [[a, b, d, e] for a in SIV_AD4 for b in SIV_AD4 for d in SIV_AD4 for e in SIV_AD4]
+    return out
+
+
+def aead_grid(mode, c, klen, nl, vc, seed, quick, eff=None):
     """the C01 shape grid (without mutations) for one (mode, cipher, key length, nonce length, value class):
-    every legal tag length x AAD lengths x message lengths (both tiers)"""
+    every legal tag length x AAD lengths x message lengths (both tiers; the thorough tier adds 8 blocks -1/0/+1 to
+    both length grids, the two half-declared CCM variants, the full SIV AD-vector grid)"""
     bs = BS.get(c, 16)
     base = {"part": "aead", "c": c, "klen": klen, "vc": vc, "seed": seed, "mode": mode, "nl": nl}
+    if eff is not None:
+        base["eff"] = eff
     aadg = [0, 1, bs - 1, bs, bs + 1, 2 * bs + 1]
     msgg = [0, 1, bs - 1, bs, bs + 1, 2 * bs, 2 * bs + 1]
+    if not quick:
+        aadg += [8 * bs - 1, 8 * bs, 8 * bs + 1]
+        msgg += [8 * bs - 1, 8 * bs, 8 * bs + 1]
     if mode == "SIV":
-        for a in SIV_AAD:
+        for a in siv_ad_vectors(quick):
             for L in msgg:
                 yield dict(base, tl=16, aad=list(a), L=L)
         return
     if mode == "CHAPOLY":
-        for a in AAD_G:
-            for L in (0, 1, 15, 16, 17, 32, 33, 63, 64, 65, 127, 128, 129):
+        for a in (AAD_G if quick else CHAPOLY_AAD_DEEP):
+            for L in (CHAPOLY_MSG if quick else CHAPOLY_MSG_DEEP):
                 yield dict(base, tl=16, aad=a, L=L)
         return
     tls = {"GCM": range(4, 17), "CCM": (4, 6, 8, 10, 12, 14, 16), "EAX": range(2, bs + 1), "OCB": range(8, 17)}[mode]
@@ -585,7 +641,7 @@ def aead_grid(mode, c, klen, nl, vc, seed, quick):
         for a in aadg:
             for L in msgg:
                 if mode == "CCM":
-                    for v in ("auto", "declared"):
+                    for v in (("auto", "declared") if quick else CCM_VARIANTS):
                         yield dict(base, tl=tl, aad=a, L=L, ccm=v)
                 else:
                     yield dict(base, tl=tl, aad=a, L=L)
@@ -596,9 +652,11 @@ def aead_alllen(mode, c, klen, vc, seed, quick):
     bs = 64 if mode == "CHAPOLY" else BS.get(c, 16)
     base = {"part": "aead", "c": c, "klen": klen, "vc": vc, "seed": seed, "mode": mode}
     nls = {"GCM": (12, 16), "CCM": (11, 13), "EAX": (16, 5), "OCB": (15, 12), "SIV": (None, 16), "CHAPOLY": (12, 24, 8)}[mode]
-    ls = lens_all(bs)
+    if not quick:      # a third nonce length: the shortest legal one (EAX, SIV: longer than two blocks)
+        nls += {"GCM": (1,), "CCM": (7,), "EAX": (33,), "OCB": (1,), "SIV": (33,), "CHAPOLY": ()}[mode]
+    ls = lens_all(bs) if quick else lens_deep(bs)
     for nl in nls:
-        for a in (0, 17):
+        for a in ((0, 17) if quick else (0, 1, 17)):
             for L in ls:
                 d = dict(base, nl=nl, tl=min(16, BS.get(c, 16)), aad=([a] if a else []) if mode == "SIV" else a, L=L)
                 if mode == "CCM":
@@ -608,14 +666,17 @@ def aead_alllen(mode, c, klen, vc, seed, quick):
                 yield d
     # every AAD length 0..8*block+1 (and around 16 blocks) with an empty and a 17-byte message
     if mode != "SIV":
-        for a in list(range(0, 8 * 16 + 2)) + [255, 256, 257]:
-            for L in (0, 17):
+        aads = list(range(0, 8 * 16 + 2)) + [255, 256, 257]
+        if not quick:
+            aads = list(range(0, 16 * 16 + 2)) + [383, 384, 385, 511, 512, 513]
+        for a in aads:
+            for L in ((0, 17) if quick else (0, 1, 17)):
                 d = dict(base, nl=nls[0], tl=min(16, BS.get(c, 16)), aad=a, L=L)
                 if mode == "CCM":
                     d["ccm"] = "declared" if a % 2 else "auto"
                 yield d
     else:
-        for a in list(range(0, 4 * 16 + 2)):
+        for a in list(range(0, (4 if quick else 16) * 16 + 2)):
             yield dict(base, nl=None, tl=16, aad=[a, (a * 5) % 37], L=a % 19)
     if mode == "CCM":
         # the remaining declaration variants, a few lengths
@@ -660,12 +721,14 @@ def check_stream(cfg, acc, lengths=None):
         def mk(dec=False):
             o = ChaCha20.new(key=key, nonce=nonce)
             if pre is not None:           # the object has been somewhere else before: seek, use, seek again
-                o.seek(pre)
-                (o.decrypt if dec else o.encrypt)(b"x")
+                for q in (pre if isinstance(pre, (list, tuple)) else (pre,)):
+                    o.seek(q)
+                    (o.decrypt if dec else o.encrypt)(b"x")
             if pos is not None:
                 o.seek(pos)
             return o
-        sig = (cfg["nl"], pos) if pre is None else (cfg["nl"], pos, "after", pre)
+        sig = (cfg["nl"], pos) if pre is None else (cfg["nl"], pos, "after",
+                                                    tuple(pre) if isinstance(pre, (list, tuple)) else pre)
     if len(ks) != Lmax:
         acc.error("reference keystream length")
         return
@@ -689,6 +752,8 @@ def check_stream(cfg, acc, lengths=None):
                 continue
             _raised(acc, case, ex, "%s encrypt/decrypt" % c)
             continue
+        if L >= HUGE:
+            acc.count("huge_cases")
         if got != exp:
             _viol(acc, case, "ciphertext", "%s key=%s nonce=%s %s len=%d: ciphertext %s, specification %s"
                   % (c, short(key, 32), short(nonce), sig, L, short(got), short(exp)))
@@ -902,7 +967,13 @@ def des3key_cases(shard, seed):
     kind = shard[1]
     if kind == "bytes":            # all 256 values at one byte position
         klen, pos = shard[2], shard[3]
-        for base in (asc(klen, 0x10), seeded("c02/des3base", klen, seed)):
+        bases = [asc(klen, 0x10), seeded("c02/des3base", klen, seed)]
+        if len(shard) > 4:         # thorough: also an all-zero / all-ones base (degenerate unless the varied byte
+            x = seeded("c02/des3base3", 8, seed)         # differs in a non-parity bit), a K1=K2 and a K2=K3 base
+            y = bytes(v ^ 0xA5 for v in x)
+            bases += [bytes(klen), b"\xff" * klen, seeded("c02/des3base2", klen, seed), (x + x + y)[:klen],
+                      (y + x + x)[:klen] if klen == 24 else (x + y)]
+        for base in bases:
             for b in range(256):
                 yield {"part": "des3key", "c": "DES3", "key": base[:pos] + bytes([b]) + base[pos + 1:], "why": "byte"}
     elif kind == "degenerate":
@@ -933,7 +1004,11 @@ def _gf_inv(x):
     return r
 
 
-def crafted_cases(c, klen, vc, seed):
+GCM_LOW = (0xFFFFFFFF, 0xFFFFFFFE, 0xFFFFFFFD, 0xFFFFFFF7, 0xFFFFFFF6, 0x7FFFFFFF, 0xFFFF)
+GCM_LOW_DEEP = GCM_LOW + (0xFFFFFFF8, 0xFFFFFFEF, 0xFFFFFFEE, 0xFFFFFEFF, 0xFFFEFFFF, 0xFEFFFFFF, 0x00FFFFFF, 0xFFFFFF00)
+
+
+def crafted_cases(c, klen, vc, seed, quick=True):
     """GCM: 16-byte nonce with J0 = target (low 32 bits close to 2^32: inc32 must wrap without touching
     the upper 96 bits);  EAX: one-block nonce with OMAC^0(nonce) = target (counter close to 2^(8*bs))"""
     key = key_for(c, klen, vc, seed)
@@ -945,26 +1020,31 @@ def crafted_cases(c, klen, vc, seed):
         if h:
             hi = _gf_inv(h)
             up = int.from_bytes(val(vc, "j0", 12, seed), "big") << 32
-            for low in (0xFFFFFFFF, 0xFFFFFFFE, 0xFFFFFFFD, 0xFFFFFFF7, 0xFFFFFFF6, 0x7FFFFFFF, 0xFFFF):
+            for low in (GCM_LOW if quick else GCM_LOW_DEEP):
                 j0 = up | low
                 n = M.gf128_mul(M.gf128_mul(j0, hi) ^ 128, hi)
                 nonce = n.to_bytes(16, "big")
                 if M.gcm_j0(R, nonce) != j0.to_bytes(16, "big"):
                     raise AssertionError("crafted GCM nonce does not hit the target J0")
-                for L in (0, 1, 16, 17, 32, 33, 129, 16 * 17 + 1):
-                    out.append({"part": "aead", "c": c, "klen": klen, "vc": vc, "seed": seed, "mode": "GCM", "nl": 16,
-                                "tl": 16, "aad": 5, "L": L, "nonce": nonce})
+                for L in ((0, 1, 16, 17, 32, 33, 129, 16 * 17 + 1) if quick else
+                          (0, 1, 15, 16, 17, 31, 32, 33, 127, 128, 129, 16 * 17 + 1, 16 * 32 + 1)):
+                    for a in ((5,) if quick else (0, 5, 16)):
+                        out.append({"part": "aead", "c": c, "klen": klen, "vc": vc, "seed": seed, "mode": "GCM", "nl": 16,
+                                    "tl": 16, "aad": a, "L": L, "nonce": nonce})
     top = 1 << (8 * bs)
     Lb = int.from_bytes(R.encrypt_block(bytes(bs)), "big")
     k1 = M._dbl(Lb, bs)
-    for delta in (1, 2, 3, 8, 9, 10):
+    for delta in ((1, 2, 3, 8, 9, 10) if quick else (1, 2, 3, 7, 8, 9, 10, 16, 17, 18, 257)):
         target = (top - delta).to_bytes(bs, "big")
         nonce = (int.from_bytes(R.decrypt_block(target), "big") ^ Lb ^ k1).to_bytes(bs, "big")
         if M.cmac(R, bytes(bs) + nonce) != target:
             raise AssertionError("crafted EAX nonce does not hit the target counter")
-        for L in (0, 1, bs, bs + 1, 2 * bs + 1, 8 * bs + 1, 17 * bs + 1):
-            out.append({"part": "aead", "c": c, "klen": klen, "vc": vc, "seed": seed, "mode": "EAX", "nl": bs,
-                        "tl": bs, "aad": 3, "L": L, "nonce": nonce})
+        for L in ((0, 1, bs, bs + 1, 2 * bs + 1, 8 * bs + 1, 17 * bs + 1) if quick else
+                  (0, 1, bs - 1, bs, bs + 1, 2 * bs, 2 * bs + 1, 8 * bs - 1, 8 * bs, 8 * bs + 1, 9 * bs + 1, 10 * bs + 1,
+                   16 * bs + 1, 17 * bs + 1, 18 * bs + 1, 32 * bs + 1)):
+            for a in ((3,) if quick else (0, 3, bs)):
+                out.append({"part": "aead", "c": c, "klen": klen, "vc": vc, "seed": seed, "mode": "EAX", "nl": bs,
+                            "tl": bs, "aad": a, "L": L, "nonce": nonce})
     return out
 
 
